@@ -215,6 +215,9 @@ func (h *Client) step(what string) {
 	h.EventLog = append(h.EventLog, what)
 	for i := 0; i < 8; i++ {
 		h.S.Run()
+		if h.S.Overrun {
+			panic(fmt.Sprintf("harness: step horizon (%d scheduler steps) exceeded after %d events; live: %v", h.S.MaxStep, h.Events, h.S.Live()))
+		}
 		h.collect()
 		if h.Opts.NoAutoHandshake || !h.autoHandshake() {
 			break
